@@ -18,9 +18,9 @@ def run(res, pool, tier, seed):
                      constants=dict(NL2=4, SA=2, OFF=0, GENK={5}, NGEN=8000, S=2, BODIES1=set(), BODIES2={"cube", "tet2", "hexObl"}, T=2, SEED=sd, NSHARD=20))]
     else:
         jobs = [dict(module="MC_BodyBody.tla", tag="catalogue", invariants=INVS, timeout=10000, batch=40,
-                     constants=dict(NL2=4, SA=2, OFF=0, GENK=set(), NGEN=1, S=2, BODIES1=allb, BODIES2=allb, T=2, SEED=sd, NSHARD=3)),
+                     constants=dict(NL2=4, SA=2, OFF=0, GENK=set(), NGEN=1, S=2, BODIES1=allb, BODIES2=allb, T=2, SEED=sd, NSHARD=5)),
                 dict(module="MC_BodyBody.tla", tag="general-hulls", invariants=INVS, timeout=10000, batch=40,
-                     constants=dict(NL2=4, SA=2, OFF=0, GENK={4, 5, 6}, NGEN=6000, S=2, BODIES1=set(), BODIES2={"cube", "tet2", "hexObl", "octa"}, T=2, SEED=sd, NSHARD=6))]
+                     constants=dict(NL2=4, SA=2, OFF=0, GENK={4, 5, 6}, NGEN=6000, S=2, BODIES1=set(), BODIES2={"cube", "tet2", "hexObl", "octa"}, T=2, SEED=sd, NSHARD=10))]
     jobs.append(dict(module="MC_BodyBody.tla", tag="nested", invariants=INVS, timeout=3600, batch=40,
                      constants=dict(NL2=4, SA=6, OFF=2, GENK=set(), NGEN=1, S=2, BODIES1={"cube", "box", "octa", "ppyr", "hprism"},
                                     BODIES2={"cube", "tet2", "octa", "sq", "triObl", "hexObl", "prism"}, T=1, SEED=sd, NSHARD=6 if tier == "quick" else 1)))
